@@ -176,7 +176,7 @@ def check_get_nasa(run, repo, max_seg):
     coefficients of the segment whose own bounds contain T, and T outside every segment must be refused"""
     ci = repo.cls(NASA + '.Nasa9')
     owner, fn = repo.find_method(ci, 'get_CpoR')
-    con = 'nasa.Nasa9._get_nasa'        # construct name kept for the findings of earlier versions
+    con = 'nasa.Nasa9 segment selection'
     n_inst = 0
     for nseg in range(1, max_seg + 1):
         positions = [(-5, None, 'below every segment')]
@@ -548,7 +548,7 @@ def check(run, repo):
         'ALL coefficient vectors and temperatures at once: linearity in a; d(T*HoRT)/dT == CpoR and '
         'dSoR/dT == CpoR/T slot by slot; one H- and one S-integration-constant slot; GoRT == HoRT - SoR '
         'with identical arguments; Nasa.get_a on the 7 orderings of T against T_low<T_mid<T_high; '
-        'Nasa9._get_nasa on every position of T relative to 1-4 segments (refusal outside); class getters use '
+        'the NASA-9 segment selection (through Nasa9.get_CpoR) on every position of T relative to 1-4 segments (refusal outside); class getters use '
         'the containing segment, also when the segments are listed from high to low or leave a gap; array evaluation '
         'equals element-wise evaluation (bounded unrolling); a result buffer must not take its element type from the '
         'caller\'s temperature container, and a temperature argument is not raised to a negative integer power before '
@@ -565,7 +565,7 @@ def check(run, repo):
     fams['shomate'] = slot_rules(run, repo, 'shomate', SHO, 'get_shomate_', 8)
     check_get_a(run, repo)
     n = check_get_nasa(run, repo, 4 if thorough else 3)
-    run.floor('Nasa9._get_nasa positions', n, 20)
+    run.floor('Nasa9 segment-selection positions', n, 20)
     nbt = class_rules(run, repo, 5 if thorough else 3)
     run.floor('BRANCH-TWIN instances', nbt, 36)
     run.extra['negative integer powers of an argument'] = integer_temperatures(run, repo)
@@ -585,9 +585,9 @@ MUTANTS = [
      'edits': [(N, 'np.log(T) / T, np.ones_like(T), T / 2.,', 'np.log(T), np.ones_like(T), T / 2.,')]},
     {'name': 'get_a < -> <=', 'expect': ('ORDER.get_a', 'get_a'),
      'edits': [(N, 'if T < self.T_mid:', 'if T <= self.T_mid:')]},
-    {'name': '_get_nasa >= T_low -> >', 'expect': ('', '_get_nasa'),
+    {'name': '_get_nasa >= T_low -> >', 'expect': ('', 'segment selection'),
      'edits': [(N, 'if T <= nasa.T_high and T >= nasa.T_low:', 'if T <= nasa.T_high and T > nasa.T_low:')]},
-    {'name': '_get_nasa for-else raise removed (falls through to last segment)', 'expect': ('PATH.refuse', '_get_nasa'),
+    {'name': '_get_nasa for-else raise removed (falls through to last segment)', 'expect': ('PATH.refuse', 'segment selection'),
      'edits': [(N, "                                                  self.T_high))\n            raise ValueError(err_msg)",
                 "                                                  self.T_high))\n            return nasa")]},
     {'name': 'Nasa.get_SoR array branch picks segment from T[0]', 'expect': ('BRANCH-TWIN', 'Nasa.get_SoR'),
